@@ -108,6 +108,21 @@ CHECKS["C06"] = (
     "5/C06",
 )
 
+CHECKS["C09"] = (
+    "Meta.tla (INSTANCE OrderedOps, UnorderedOps over Events.tla) + TraceMeta.tla",
+    "TLC vets the metamorphic relations on the specification itself (minimum / optimal set of every model under mirrored trees, renamed families, an added outgroup, scaled and raised costs) over a bounded input domain; recorded sessions of thl, ext_spfs, superdtl and the base variants on random larger inputs (reordered children, renamed nodes and families, outgroup, repeated and fresh-process runs with other hash seeds, scaling, raised cost, ANY) are judged by a TLA+ trace spec that relates each run to the base run of its session",
+    "Model checking of the relations in the model (so that only relations that are theorems of the specification are applied) and trace validation of recorded runs of the real code, results projected to clades.",
+    "Trusts TLC, Meta.tla and the clade projection of checks/meta_common.py; outgroup relation on optimal sets only for floss > 0 (TLC refutes it otherwise); costs coherent before and after a change; up to 10 object leaves / 8 species leaves / 4 families.",
+    "5/C09",
+)
+CHECKS["C10"] = (
+    "Meta.tla (AgreeInv) + TraceMeta.tla",
+    "TLC checks the agreement relations between the models (extended <= base, unordered <= ordered, DTL <= LCA with equality without transfers, single-family coincidences) on the specification over a bounded domain; the seven real algorithms run on the same random inputs and the recorded minima are judged by a TLA+ trace spec",
+    "Model checking of the relations between the solver models plus trace validation of the minima returned by all seven algorithms on common inputs.",
+    "Trusts TLC and Meta.tla; costs inside the coherent region; up to 10 object leaves / 8 species leaves / 4 families (ordered solvers up to 6 leaves / 3 families).",
+    "5/C10",
+)
+
 NOT_YET = {}
 
 
